@@ -223,6 +223,7 @@ func runC01(p *core.Prog, r *core.Report) {
 		return
 	}
 	tables := map[string][]constant.Value{"safeSet": safe}
+	derivedBoolTables(p, "logger", tables)
 	var bad []string
 	raw, esc := 0, 0
 	for b := 0; b < 0x80; b++ {
